@@ -28,7 +28,7 @@ func init() {
 		NotDecided:  []string{"collisions between *storage* keys that differ only by ':'", "concurrent processes"},
 		Rules: []core.Rule{
 			{ID: "C18-R1", Title: "overwrite replaces: truncating open, then rename", Decides: "get returns exactly the last value set (also after a shorter overwrite)", Floor: 2, Run: c18r1},
-			{ID: "C18-R2", Title: "one path function for all operations", Decides: "set/get/delete/list address the same file", Floor: 4, Run: c18r2},
+			{ID: "C18-R2", Title: "one path function for all operations", Decides: "set/get/delete/list address the same file", Floor: 4, Run: func(c *core.Ctx) { c18r2(c); passThrough(c, "C18"); tempFileInStorageDirectory(c) }},
 			{ID: "C18-R3", Title: "entity keys: full hex of the name + the listed suffix, used by all operations", Decides: "holds for every entity name; listing returns exactly the live entries", Floor: 6, Run: func(c *core.Ctx) { c18r3(c); entityCtorPasses(c) }},
 			{ID: "C18-R4", Title: "errors surface; successful lookups read the storage", Decides: "not-found after delete; no stale entries", Floor: 4, Run: c18r4},
 			{ID: "C18-R5", Title: "exact listing filter; only Set/Delete change files; writes and deletes are unconditional; opening is read-only", Decides: "listing returns exactly the live entries; values survive re-opening; the last value set is what is read", Floor: 6, Run: c18r5},
@@ -47,7 +47,7 @@ func init() {
 		Rules: []core.Rule{
 			{ID: "C19-R1", Title: "the destination is never written in place and never removed", Decides: "never a mixture, an empty or a truncated value; never absent after it held a value", Floor: 2, Run: c19r1},
 			{ID: "C19-R2", Title: "write, close, then rename; rename only after success", Decides: "either the previous or the new value in full", Floor: 3, Run: c19r2},
-			{ID: "C19-R3", Title: "temp files are invisible to listings", Decides: "other keys / listings are untouched by an interrupted write", Floor: 1, Run: c19r3},
+			{ID: "C19-R3", Title: "temp files are invisible to listings", Decides: "other keys / listings are untouched by an interrupted write", Floor: 1, Run: func(c *core.Ctx) { c19r3(c); tempFileInStorageDirectory(c) }},
 			{ID: "C19-R4", Title: "one Set per entity / per config key", Decides: "database operations built on Set are atomic per key", Floor: 2, Run: func(c *core.Ctx) { c19r4(c); noDeleteBeforeSave(c) }},
 			{ID: "C19-R5", Title: "only Set renames, only Set/Delete remove; opening and reading change no file (shared with C18-R5)", Decides: "a left-over temporary file is never promoted to a value", Floor: 6, Run: c18r5},
 		},
